@@ -217,12 +217,20 @@ func (a *authority) handleADSStreamFailure(serverConfig *ServerConfig, err error
 	}
 
 	// Attempt to fallback to servers with lower priority than the failing one.
-	currentServerIdx := a.serverIndexForConfig(serverConfig)
-	for i := currentServerIdx + 1; i < len(a.xdsChannelConfigs); i++ {
-		if a.fallbackToServer(a.xdsChannelConfigs[i]) {
-			// Since we have successfully triggered fallback, we don't have to
-			// notify watchers about the connectivity error.
-			return
+	//
+	// Per gRFC A71, fallback is only ever triggered by a failure of the
+	// currently active server. A higher priority server that we have already
+	// fallen back from keeps retrying (and failing) in the background; such a
+	// failure must not make us skip over the active server, which may still be
+	// connecting or may be serving us perfectly well.
+	if a.activeXDSChannel == nil || isServerConfigEqual(serverConfig, a.activeXDSChannel.serverConfig) {
+		currentServerIdx := a.serverIndexForConfig(serverConfig)
+		for i := currentServerIdx + 1; i < len(a.xdsChannelConfigs); i++ {
+			if a.fallbackToServer(a.xdsChannelConfigs[i]) {
+				// Since we have successfully triggered fallback, we don't have to
+				// notify watchers about the connectivity error.
+				return
+			}
 		}
 	}
 
